@@ -149,6 +149,10 @@ class LibMixin:
             if m == 'top' and not args: m = 'back'                                             # std::stack
             if m in ('push', 'emplace') and len(args) == 1 and self.same_c(args[0], t.elem):  # std::stack
                 return self.cont_call(t, 'push_back', o, [self.expr(args[0], rvalue=True)])
+            if m == 'resize' and t.elem.kind == 'scalar' and 1 <= len([x for x in args if x.get('kind') != 'CXXDefaultArgExpr']) <= 2:
+                a2 = [x for x in args if x.get('kind') != 'CXXDefaultArgExpr']
+                self.rules['vector::resize'] += 1
+                return self.cont_call(t, 'resize', o, ['(size_t)(%s)' % self.expr(a2[0], rvalue=True), self.expr(a2[1], rvalue=True) if len(a2) == 2 else '((%s)0)' % t.elem.c])
             if m == 'reserve':
                 self.dropped['vector::reserve'] += 1
                 return '((void)0)'
@@ -400,6 +404,19 @@ class LibMixin:
                 return '(&%s)' % self.chk('%s.has' % o, 'optional::operator-> on empty (UB)', '%s.val' % o)
             if op == '=':
                 return '(%s = %s)' % (o, self.expr(args[1]))
+            if op in ('==', '!=') and len(args) == 2 and self.etype(args[1]).c == t.c:
+                # optional == optional: both empty, or both engaged with equal values (std::optional's relational operators)
+                b = self.expr(args[1]); x = self.tmp('oa'); y = self.tmp('ob')
+                self.pre.append('%s %s = %s; %s %s = %s;' % (t.c, x, o, t.c, y, b))
+                if t.elem.kind == 'scalar': eq = '%s.val == %s.val' % (x, y)
+                elif t.elem.kind == 'opaque':
+                    cn = '%s_op_eq' % t.elem.c
+                    self.autostubs.setdefault(cn, 'cc_bool %s(const %s* this_, const %s* a0);' % (cn, t.elem.c, t.elem.c))
+                    self.fninfo.setdefault(cn, {'qname': t.elem.c + '::operator==', 'stub': True})
+                    eq = '%s(&%s.val, &%s.val)' % (cn, x, y)
+                else: raise Unsupported('optional comparison over %s' % t.elem.c)
+                self.rules['optional==optional'] += 1
+                return '(%s(%s.has == %s.has && (!%s.has || %s)))' % ('!' if op == '!=' else '', x, y, x, eq)
         if t.kind in ('iter', 'riter') and op == '=':
             c0 = self.skip(args[0])
             if c0.get('kind') == 'DeclRefExpr' and c0['referencedDecl']['id'] not in self.iter_of:
@@ -502,6 +519,8 @@ class LibMixin:
     def is_external(self, d):
         """a ccl:: function the unit does not translate (body replaced by a stub)"""
         qn = self.qname.get(d['id'], d.get('name'))
+        dd_ = self.definition_of(d)
+        if dd_ is not None and dd_['id'] in getattr(self, 'root_ids', ()): return False     # an explicit root of the unit is translated, whoever calls it
         for pat in self.u.get('external', []):
             if re.fullmatch(pat, qn): return True
         owner = self.owner_record(d) if d.get('kind') != 'FunctionDecl' else None
@@ -601,4 +620,7 @@ class LibMixin:
             self.autostubs[cn] = proto
             self.fninfo.setdefault(cn, {'qname': self.qname.get(d['id']), 'stub': True})
         self.rules['auto-stub-call'] += 1
+        if self.wb:
+            # reference arguments that are nested container elements were passed as copies: declare / write back here too
+            return self.wrap_wb(d, '%s(%s)' % (cn, ', '.join(atxt)))
         return self.wrap_ref_result(d, '%s(%s)' % (cn, ', '.join(atxt)))
